@@ -404,7 +404,8 @@ impl Part {
 
 /// mode bits 0-1: API pattern (0 all next_block, 1 all next, 2 alternate starting with next_block,
 /// 3 alternate starting with next); bit 2: the last call carries is_final=true.  `finish()` is
-/// always called afterwards and its chunk (if any) belongs to the output.
+/// always called afterwards; its chunk (if any) belongs to the output unless the last call carried
+/// is_final=true, in which case a non-empty finish() is a violation (the final call must flush).
 const N_MODES: u8 = 8;
 
 #[derive(Default, Clone)]
@@ -426,6 +427,10 @@ enum Outcome {
     Chunks(Vec<Chunk>),
     Panic(String),
     NoProgress(usize),
+    /// the last call carried is_final=true ("no more data after this block will come, and any data currently
+    /// present and at the end will be put into a final chunk"), yet finish() still returned a tail of this length;
+    /// the chunks are those returned up to and including the final call
+    FinalLeftTail(usize, Vec<Chunk>),
 }
 
 fn drive<C: Subject>(target: usize, data: &[u8], part: &Part, mode: u8, st: &mut Stats) -> Outcome {
@@ -529,6 +534,9 @@ fn drive_inner<C: Subject>(target: usize, data: &[u8], part: &Part, mode: u8, st
             st.final_flag_left_tail_to_finish += 1;
         } else if final_flag {
             st.final_flag_left_tail_other += 1;
+        }
+        if final_flag {
+            return Outcome::FinalLeftTail(c.data.len(), out);
         }
         out.push(c);
     } else if final_flag && last_flushed {
@@ -665,6 +673,20 @@ impl Ctx<'_> {
             Outcome::NoProgress(at) => {
                 viol(out, "C04/next-makes-no-progress", || (format!("target {} stream {} calls {} mode {mode}: next() returned (None, 0) with input left at {at}", self.target, self.spec.to_json(), part.to_json()), case()))
             },
+            Outcome::FinalLeftTail(tail, ch) => viol(out, "C04/final-call-leaves-tail", || {
+                (
+                    format!(
+                        "target {} stream {} ({} bytes): calls {} mode {mode}: the last call carried is_final=true but the chunks returned so far hold {} bytes (ends {}); the remaining {tail} bytes only came out of finish()",
+                        self.target,
+                        self.spec.to_json(),
+                        self.data.len(),
+                        part.to_json(),
+                        ch.iter().map(|c| c.data.len()).sum::<usize>(),
+                        head(&ends_of(&ch))
+                    ),
+                    case(),
+                )
+            }),
         }
     }
 }
@@ -791,7 +813,7 @@ fn check_stream<C: Subject>(target: usize, spec: &Spec, tier: Tier, cov: &mut [u
             viol(&mut out, "C04/panic", || (format!("target {target} stream {}: one-call run panics: {t}", spec.to_json()), base_case.clone()));
             return out;
         },
-        Outcome::NoProgress(_) => unreachable!(),
+        Outcome::NoProgress(_) | Outcome::FinalLeftTail(..) => unreachable!(),
     };
     cx.check_output(&mut out, &base, &data, &base_case, "one-call run");
     let cuts = refmodel::chunk_cuts(&data, target);
@@ -1088,7 +1110,7 @@ fn check_stream<C: Subject>(target: usize, spec: &Spec, tier: Tier, cov: &mut [u
                     cx.check_output(&mut out, &ch, &data[b..], &case, "suffix run");
                 },
                 Outcome::Panic(t) => viol(&mut out, "C04/panic", || (format!("target {target} stream {} suffix from {b}: panic {t}", spec.to_json()), case.clone())),
-                Outcome::NoProgress(_) => unreachable!(),
+                Outcome::NoProgress(_) | Outcome::FinalLeftTail(..) => unreachable!(),
             }
         }
     }
@@ -1141,7 +1163,7 @@ fn check_stream<C: Subject>(target: usize, spec: &Spec, tier: Tier, cov: &mut [u
                         }
                     },
                     Outcome::Panic(t) => viol(&mut out, "C04/panic", || (format!("target {target} stream {} suffix from {b} behind prefix {pname}: panic {t}", spec.to_json()), case.clone())),
-                    Outcome::NoProgress(_) => unreachable!(),
+                    Outcome::NoProgress(_) | Outcome::FinalLeftTail(..) => unreachable!(),
                 }
             }
         }
@@ -1333,12 +1355,12 @@ fn main() {
     run.assume("the gear table is the published gearhash DEFAULT_TABLE (the reference uses the table, not the crate's matcher); keyed BLAKE3 comes from the blake3 crate");
     run.assume("minimum divisor 8 and maximum multiplier 2 (the defaults); HF_XET_* overrides are refused");
     run.assume("streams are 5 maximum chunks + 37 bytes long (embedded ones 6.5); longer streams add no new chunker state because the state is reset at every boundary");
-    run.assume("a stream ends with finish(); a last call with is_final=true is followed by finish() as well and both outputs count");
+    run.assume("a stream ends with finish(), or with a last call carrying is_final=true, after which finish() must have nothing left to return");
     let evaluations = all.get("runs");
     run.all = all;
     run.finish(
         evaluations,
-        "every (target, stream) of the catalogue (thorough: 256 constants, all primitive periodic words of period <=6 over 2 byte values on two alphabets and of period <=4 over 3 values, 8 ramps, 6 designed low-entropy streams whose chunks are a never-matching filler plus a searched suffix so that cuts fall on the first hashed byte, inside the first hash window, at min-1..min+1, target, max-2, max-1, max (match exactly at max) and max+1 (forced cut wins), 64 LCG streams, 8 low-entropy LCG streams, and each of them embedded at 3 offsets (chunk-aligned, +1, +67) in an LCG host stream; quick: a fixed sub-catalogue of 29 streams + 21 embeddings; targets: every power of two 128..65536, quick {128,1024,65536}; stream length 5 max chunks + 37 bytes, embedded 6.5) is chunked in one call and compared with the reference rule (boundaries, hashes, bounds, concatenation). Then it is re-chunked under (a) fixed steps 1..65, min-1..min+1, skip, skip+1, max-1..max+1 (only 1,2,7,64,65,max-1..max+1 for thorough-tier embeddings and streams of > 256 chunks); (b) EVERY 2-partition (cut positions 0..=len) when the stream is at most 12000 bytes (targets <= 1024; thorough-tier embeddings: 3000 bytes) and bytes x chunks <= 1e6, otherwise the cut positions within +-W (W = 4 up to 50000 bytes, 2 above; thorough-tier embeddings 2 / 1) of every chunk start, start+skip (skip-ahead edge), start+min and start+max (streams of > 64 chunks: of the first 10 and last 2 chunks only), of both seams of an embedding, plus a stride of 16..512 positions (divided by chunks/64 for many-chunk streams); (c) those windowed cuts (all cuts for streams <= 1500/3000 bytes) with empty calls in every slot: before, between, after, all at once (streams > 50000 bytes in the thorough tier: two variants near the first three and the last chunk); (d) all 3-partitions over the first 6..48 boundary-adjacent / skip-edge-adjacent cuts, a third of them with empty calls in every slot; each under API mixes (next_block only / next loops only / alternating either way, ended by finish() or by is_final=true on the last call then finish()): all 8 for streams <= 1500 (quick) / 3000 (thorough) bytes and for cuts near the first three and the last chunk, otherwise 2 complementary ones rotating with the position (1..4 for streams > 50000 bytes in the thorough tier). (e) every produced boundary (first 24..256 per stream) is re-chunked as a fresh suffix, and three of them behind 4 chunk-aligned prefixes; (f) an embedded stream must re-chunk like the stand-alone stream from the first common boundary on. An evaluation is one complete run of the real chunker over a stream; a case is distinct and non-trivial when its (target, stream bytes) pair is new and the stream has at least 2 chunks",
+        "every (target, stream) of the catalogue (thorough: 256 constants, all primitive periodic words of period <=6 over 2 byte values on two alphabets and of period <=4 over 3 values, 8 ramps, 6 designed low-entropy streams whose chunks are a never-matching filler plus a searched suffix so that cuts fall on the first hashed byte, inside the first hash window, at min-1..min+1, target, max-2, max-1, max (match exactly at max) and max+1 (forced cut wins), 64 LCG streams, 8 low-entropy LCG streams, and each of them embedded at 3 offsets (chunk-aligned, +1, +67) in an LCG host stream; quick: a fixed sub-catalogue of 29 streams + 21 embeddings; targets: every power of two 128..65536, quick {128,1024,65536}; stream length 5 max chunks + 37 bytes, embedded 6.5) is chunked in one call and compared with the reference rule (boundaries, hashes, bounds, concatenation). Then it is re-chunked under (a) fixed steps 1..65, min-1..min+1, skip, skip+1, max-1..max+1 (only 1,2,7,64,65,max-1..max+1 for thorough-tier embeddings and streams of > 256 chunks); (b) EVERY 2-partition (cut positions 0..=len) when the stream is at most 12000 bytes (targets <= 1024; thorough-tier embeddings: 3000 bytes) and bytes x chunks <= 1e6, otherwise the cut positions within +-W (W = 4 up to 50000 bytes, 2 above; thorough-tier embeddings 2 / 1) of every chunk start, start+skip (skip-ahead edge), start+min and start+max (streams of > 64 chunks: of the first 10 and last 2 chunks only), of both seams of an embedding, plus a stride of 16..512 positions (divided by chunks/64 for many-chunk streams); (c) those windowed cuts (all cuts for streams <= 1500/3000 bytes) with empty calls in every slot: before, between, after, all at once (streams > 50000 bytes in the thorough tier: two variants near the first three and the last chunk); (d) all 3-partitions over the first 6..48 boundary-adjacent / skip-edge-adjacent cuts, a third of them with empty calls in every slot; each under API mixes (next_block only / next loops only / alternating either way, ended by finish() or by is_final=true on the last call, after which finish() must return nothing): all 8 for streams <= 1500 (quick) / 3000 (thorough) bytes and for cuts near the first three and the last chunk, otherwise 2 complementary ones rotating with the position (1..4 for streams > 50000 bytes in the thorough tier). (e) every produced boundary (first 24..256 per stream) is re-chunked as a fresh suffix, and three of them behind 4 chunk-aligned prefixes; (f) an embedded stream must re-chunk like the stand-alone stream from the first common boundary on. An evaluation is one complete run of the real chunker over a stream; a case is distinct and non-trivial when its (target, stream bytes) pair is new and the stream has at least 2 chunks",
         true,
     );
 }
